@@ -59,7 +59,7 @@ BUILT = {
          "Every entry of the six likely-subtags tables and four direction arrays is read from the compiled statics via the cfg(unic_locale_verif) re-export and compared with the JSON-derived dictionary: exactly one entry per key, correct value, strict order in the binary-search key order, well-formed canonical-case subtags, CLDR version; both generator binaries are re-run and their tokenised output compared with the checked-in files.",
          "Trusted: the JSON data files. Needs the add-only hook commit in /repo.",
          "DESIGN.md §4 C18"),
- "C01": ("E1/E2 input spaces x 27 entry points + E4 argument/triple products + E3 histories, in an isolated child with watchdog + E6 exhaustive schedule exploration (shuttle DFS) of concurrent callers",
+ "C01": ("E1/E2 input spaces x 32 entry points (incl. serde) + E4 argument/triple products + E3 histories, in an isolated child with watchdog + E6 exhaustive schedule exploration (shuttle DFS) of concurrent callers",
          "bounded-exhaustive enumeration of inputs, arguments, triples and mutation histories on the real code; the oracle is 'the call returns' (catch_unwind, per-case watchdog, child exit status); plus stateless model checking of thread interleavings: shuttle's DFS scheduler enumerates every schedule of 2- and 3-thread bodies over a copy of the library whose std::sync/thread/thread_local tokens are rewritten to shuttle's (termination only)",
          "Every input of the E1 token trees and E2 skeleton/edit neighbourhoods goes through every text-accepting entry point of both crates; every byte string of length <= 2 and boundary-class strings to length 9 are the argument of 15 getter/setter functions on three receivers; every (language, script, region) of the CLDR universe goes through maximize, minimize and character_direction; a fixed list of large inputs runs under the 5 s watchdog; every call of the E3 harnesses is guarded. A panic, hang, abort or stack overflow is a violation attributed to the case. Concurrent callers: the same schedule enumeration over the parse / maximize / minimize / direction families in 'total' mode (a panic, deadlock or livelock under some schedule is a violation; values are not compared).",
          "Hang = one case current for more than 5 s. Inputs longer than the depth bound and more than k edits from every skeleton are outside.",
